@@ -33,7 +33,6 @@ import (
 	"shanhu.io/g/errcode"
 	"shanhu.io/g/identity"
 	"shanhu.io/g/jwt"
-	"shanhu.io/g/pisces"
 	"shanhu.io/g/roles"
 	"shanhu.io/g/rsautil"
 	"shanhu.io/g/signer"
@@ -136,6 +135,12 @@ type ctx struct {
 
 	concCalls int64 // verifications done by the concurrent stream
 
+	// scheduled interleavings (sched.go)
+	pz        *pauser
+	parked    *parkedCall
+	last      *roles.VerifRoleState // record after the previous call
+	scheduled bool                  // the history in progress paused a call
+
 	noShrink bool
 	shrunk   map[string]bool
 }
@@ -201,10 +206,13 @@ func newCtx(rep *hx.Report, j *hx.Journal) *ctx {
 }
 
 func (c *ctx) resetRoles() {
-	c.roles = roles.New(pisces.NewMemTables())
+	c.drainParked()
+	c.roles, c.pz = newPausableRoles()
 	c.codes = nil
 	c.hist = nil
 	c.wrongs, c.accepts = 0, 0
+	c.last = nil
+	c.scheduled = false
 }
 
 // keyText is the key material the identity carries for a label.
@@ -405,45 +413,54 @@ func errClass(err error) string {
 	return "error"
 }
 
-func (c *ctx) pcOp(ws []string, line string) string {
+// prepCall parses one call of the Roles API (symbolic claims are resolved now).
+func (c *ctx) prepCall(ws []string) *pcCall {
 	if len(ws) < 2 {
-		return "bad-op"
+		return nil
 	}
-	if ws[1] == "reset" {
-		c.resetRoles()
-		c.hist = []string{line}
-		return "ok none"
+	plain := func(f func() error) *pcCall {
+		return &pcCall{run: f, finish: func(error, *roles.VerifRoleState) {}}
 	}
-	c.hist = append(c.hist, line)
-	var err error
 	switch ws[1] {
 	case "create":
-		err = c.roles.New(roleName, tm(0))
+		return plain(func() error { return c.roles.New(roleName, tm(0)) })
 	case "remove":
-		err = c.roles.Remove(roleName)
+		return plain(func() error { return c.roles.Remove(roleName) })
 	case "disable":
-		err = c.roles.Disable(roleName)
+		return plain(func() error { return c.roles.Disable(roleName) })
 	case "enable":
-		err = c.roles.Enable(roleName)
+		return plain(func() error { return c.roles.Enable(roleName) })
 	case "issue":
 		now, ok1 := kvInt(ws, "now")
 		ex, ok2 := kvInt(ws, "expiry")
 		if !ok1 || !ok2 {
-			return "bad-op"
+			return nil
 		}
-		c.roles.SetPassCodeExpiry(time.Duration(ex))
-		code, e := c.roles.NewPassCode(roleName, tm(now))
-		err = e
-		if e == nil {
-			c.codes = append(c.codes, code.Code)
-			c.wrongs, c.accepts = 0, 0
+		r := c.roles
+		var code string
+		return &pcCall{
+			run: func() error {
+				r.SetPassCodeExpiry(time.Duration(ex))
+				pc, e := r.NewPassCode(roleName, tm(now))
+				if e == nil {
+					code = pc.Code
+				}
+				return e
+			},
+			finish: func(err error, _ *roles.VerifRoleState) {
+				if err == nil {
+					c.codes = append(c.codes, code)
+					c.wrongs, c.accepts = 0, 0
+					c.last = nil // a new code: nothing to compare the record with
+				}
+			},
 		}
 	case "setup":
 		now, ok1 := kvInt(ws, "now")
 		claimW, ok2 := kvGet(ws, "claim")
 		idn, ok3 := kvInt(ws, "id")
 		if !ok1 || !ok2 || !ok3 {
-			return "bad-op"
+			return nil
 		}
 		claim := ""
 		switch claimW {
@@ -465,46 +482,151 @@ func (c *ctx) pcOp(ws []string, line string) string {
 				claim = string(b)
 			}
 		}
-		before, _ := c.roles.VerifState(roleName)
+		r := c.roles
 		id := &identity.Identity{PublicKeys: []*identity.PublicKey{{ID: strconv.FormatInt(idn, 10)}}}
-		err = c.roles.SetupWithCode(roleName, id, claim, tm(now))
-		switch {
-		case err == nil:
-			// the direct oracle of the passcode clause
-			hist := append([]string{}, c.hist...)
-			if c.accepts > 0 {
-				c.failHist("passcode-accepted-twice", "a passcode was accepted a second time without being re-issued", hist)
-			}
-			if c.wrongs > 10 {
-				c.failHist("passcode-accepted-after-too-many-wrong",
-					fmt.Sprintf("the right passcode was accepted after %d refused attempts on this code", c.wrongs), hist)
-			}
-			if before == nil || !before.HasCode {
-				c.failHist("passcode-accepted-without-code", "SetupWithCode succeeded although no passcode is stored", hist)
-			} else {
-				if now < before.Valid || now > before.Expire {
-					c.failHist("passcode-accepted-outside-window",
-						fmt.Sprintf("accepted at %d, window [%d, %d]", now, before.Valid, before.Expire), hist)
+		return &pcCall{
+			run: func() error { return r.SetupWithCode(roleName, id, claim, tm(now)) },
+			finish: func(err error, before *roles.VerifRoleState) {
+				switch {
+				case err == nil:
+					// the direct oracle of the passcode clause
+					hist := append([]string{}, c.hist...)
+					if c.accepts > 0 {
+						if c.scheduled {
+							c.failHist("passcode-reusable-after-concurrent-mutation",
+								"a consumed passcode was accepted again: a mutation of the role record that overlapped the accepting call wrote back the record it had loaded before", hist)
+						} else {
+							c.failHist("passcode-accepted-twice", "a passcode was accepted a second time without being re-issued", hist)
+						}
+					}
+					if c.wrongs > 10 {
+						c.failHist("passcode-accepted-after-too-many-wrong",
+							fmt.Sprintf("the right passcode was accepted after %d refused attempts on this code", c.wrongs), hist)
+					}
+					if before == nil || !before.HasCode {
+						if !c.scheduled {
+							c.failHist("passcode-accepted-without-code", "SetupWithCode succeeded although no passcode is stored", hist)
+						}
+					} else if !c.scheduled {
+						// (with a paused call the record the call read is not the one read here)
+						if now < before.Valid || now > before.Expire {
+							c.failHist("passcode-accepted-outside-window",
+								fmt.Sprintf("accepted at %d, window [%d, %d]", now, before.Valid, before.Expire), hist)
+						}
+						if before.Code != claim {
+							c.failHist("passcode-accepted-wrong-code", "a code different from the stored one was accepted", hist)
+						}
+						if before.Disabled {
+							c.failHist("passcode-accepted-disabled", "accepted for a disabled role", hist)
+						}
+					}
+					c.accepts++
+				case errcode.IsUnauthorized(err):
+					c.wrongs++
 				}
-				if before.Code != claim {
-					c.failHist("passcode-accepted-wrong-code", "a code different from the stored one was accepted", hist)
-				}
-				if before.Disabled {
-					c.failHist("passcode-accepted-disabled", "accepted for a disabled role", hist)
-				}
-			}
-			c.accepts++
-		case errcode.IsUnauthorized(err):
-			c.wrongs++
+			},
 		}
-	default:
+	}
+	return nil
+}
+
+// recordOracle: between two calls the stored record never goes back: for the
+// same code the attempt count does not decrease, a consumed code stays
+// consumed and a registered identity stays registered.
+func (c *ctx) recordOracle(st *roles.VerifRoleState) {
+	prev := c.last
+	c.last = st
+	if prev == nil || st == nil || !prev.Found || !st.Found || !prev.HasCode || !st.HasCode || prev.Code != st.Code {
+		return
+	}
+	hist := append([]string{}, c.hist...)
+	if st.Tried < prev.Tried {
+		c.failHist("passcode-tries-lost-after-concurrent-mutation",
+			fmt.Sprintf("the stored attempt count went from %d down to %d without a new code being issued", prev.Tried, st.Tried), hist)
+	}
+	if prev.Consumed && !st.Consumed {
+		c.failHist("passcode-unconsumed-after-concurrent-mutation",
+			"a consumed passcode is stored as not consumed again without having been re-issued", hist)
+	}
+}
+
+func (c *ctx) pcOp(ws []string, line string) string {
+	if len(ws) < 2 {
 		return "bad-op"
 	}
-	st, serr := c.roles.VerifState(roleName)
-	if serr != nil {
-		return errClass(err) + " state-error"
+	if ws[1] == "reset" {
+		c.resetRoles()
+		c.hist = []string{line}
+		return "ok none"
 	}
-	return errClass(err) + " " + showState(st, c.codes)
+	state := func() string {
+		st, serr := c.roles.VerifState(roleName)
+		if serr != nil {
+			return "state-error"
+		}
+		c.recordOracle(st)
+		return showState(st, c.codes)
+	}
+	switch ws[1] {
+	case "park":
+		if len(ws) < 4 || c.parked != nil || !strings.HasPrefix(ws[2], "at=") {
+			return "bad-op"
+		}
+		call := c.prepCall(append([]string{"pc"}, ws[3:]...))
+		if call == nil {
+			return "bad-op"
+		}
+		c.hist = append(c.hist, line)
+		c.scheduled = true
+		before, _ := c.roles.VerifState(roleName)
+		parkedCh := c.pz.arm(ws[2][3:])
+		pk := &parkedCall{call: call, done: make(chan error, 1)}
+		go func() {
+			defer func() {
+				if r := recover(); r != nil {
+					pk.done <- fmt.Errorf("panic: %v", r)
+				}
+			}()
+			pk.done <- call.run()
+		}()
+		select {
+		case <-parkedCh:
+			c.parked = pk
+			return "parked " + state()
+		case err := <-pk.done:
+			c.pz.disarm()
+			call.finish(err, before)
+			return "done " + errClass(err) + " " + state()
+		case <-time.After(schedWatchdog):
+			c.pz.disarm()
+			return "stuck"
+		}
+	case "release":
+		c.hist = append(c.hist, line)
+		if c.parked == nil {
+			return "none " + state()
+		}
+		pk := c.parked
+		c.parked = nil
+		before, _ := c.roles.VerifState(roleName)
+		close(c.pz.release)
+		select {
+		case err := <-pk.done:
+			pk.call.finish(err, before)
+			return "released " + errClass(err) + " " + state()
+		case <-time.After(schedWatchdog):
+			return "stuck"
+		}
+	}
+	call := c.prepCall(ws)
+	if call == nil {
+		return "bad-op"
+	}
+	c.hist = append(c.hist, line)
+	before, _ := c.roles.VerifState(roleName)
+	err := call.run()
+	call.finish(err, before)
+	return errClass(err) + " " + state()
 }
 
 // runOp executes one op line on the implementation, evaluates the direct
@@ -991,7 +1113,7 @@ func main() {
 	rep := hx.NewReport("C16", f)
 	rep.Rule = "op lines: issue/verify of signed blobs, hex blobs, sessions, gate tokens, time tokens, RSA time blocks, challenges, " +
 		"HS256/RS256/self JWTs with every single-bit mutation, every prefix and byte-class extensions of issued tokens, clocks at " +
-		"each boundary -2..+2 ns and +-1 s, claim templates over all field subsets, passcode histories up to 16 ops, " +
+		"each boundary -2..+2 ns and +-1 s, claim templates over all field subsets, passcode histories up to 16 ops (one in three with a call paused at a store operation of a pausable KV and released later), " +
 		"and `conc` lines: 4..16 goroutines verifying genuine tokens and forgeries on one shared Signer/Sessions/TimeSigner/Gate/HS256; " +
 		"distinct = distinct op line (a passcode op counts with its history prefix); non-trivial = every op except codec-only lines"
 	c := newCtx(rep, hx.NewJournal(f.Work))
